@@ -143,7 +143,7 @@ package anchoring
 //@ spec scaledDiff(a model.AlternativeWithCriteria, r model.AlternativeWithCriteria, c model.Criterion, s ScaleWithValueRange) real = (model.signed(a, c) - model.signed(r, c)) * s.Scale
 
 //@ func calculateReferencePointDiffs
-//@   property C19
+//@   property C19 C09
 //@   requires model.distinctCriteria(*criteria)
 //@   ensures [names_the_reference_point] result.ReferencePoint == r.Id && fresh(result.Coefficients)
 //@   ensures [gain_or_negated_loss_of_scaled_difference] forall k int :: 0 <= k && k < len(*criteria) ==> (*criteria)[k].Id in result.Coefficients
@@ -159,7 +159,7 @@ package anchoring
 //@             && d.Coefficients[criteria[k].Id] == mapped(loss, gain, scaledDiff(a, r, criteria[k], scaleRatios[criteria[k].Id]))
 
 //@ func calculateDiffsPerReferencePoint
-//@   property C19
+//@   property C19 C09
 //@   requires model.distinctCriteria(*criteria)
 //@   ensures [every_alternative_against_every_point] fresh(result) && len(result) == len(alternatives) && forall ia int :: 0 <= ia && ia < len(alternatives) ==>
 //@             result[ia].Alternative == alternatives[ia] && len(result[ia].ReferencePointsDifference) == len(referencePoints)
@@ -172,7 +172,7 @@ package anchoring
 //@   loop 2 invariant [inner] forall ir int :: 0 <= ir && ir < iter ==> diffsOf(refPointDiffs[ir], alternatives[ia], referencePoints[ir], *criteria, scaleRatios, loss, gain)
 
 //@ func evaluatePerCriterionNormalizationScaleRatio
-//@   property C19
+//@   property C19 C09
 //@   requires model.distinctCriteria(*criteria)
 //@   ensures [scaled_by_the_value_range] fresh(result) && forall k int :: 0 <= k && k < len(*criteria) ==> (*criteria)[k].Id in result
 //@             && result[(*criteria)[k].Id].Scale == (result[(*criteria)[k].Id].ValuesRange.Max - result[(*criteria)[k].Id].ValuesRange.Min != 0.0 ? 1.0 / (result[(*criteria)[k].Id].ValuesRange.Max - result[(*criteria)[k].Id].ValuesRange.Min) : 0.0)
@@ -267,7 +267,7 @@ package anchoring
 //@ spec shiftOf(w real) real = w < 0.01 ? 0.01 - w : 0.0
 
 //@ func normalizeCriteriaByTotalValue
-//@   property C19 C07
+//@   property C19 C07 C09
 //@   panics_iff [no_criteria] len(criteria) == 0
 //@   assigns criteria
 //@   ensures [shifted_and_normalised] forall k int :: 0 <= k && k < len(criteria) ==> criteria[k].Criterion == old(criteria[k].Criterion)
@@ -291,7 +291,7 @@ package anchoring
 //@   ensures result == evalName(self)
 
 //@ func (*Anchoring).getAnchoringEvaluatorFunction
-//@   property C19 C20
+//@   property C19 C20 C09
 //@   ensures [first_with_that_name] exists k int :: 0 <= k && k < len(a.anchoringEvaluators) && result.fun == a.anchoringEvaluators[k] && evalName(result.fun) == params.Function
 //@             && forall j int :: 0 <= j && j < k ==> evalName(a.anchoringEvaluators[j]) != params.Function
 //@   loop 1 invariant [none_so_far] forall j int :: 0 <= j && j < iter ==> evalName(a.anchoringEvaluators[j]) != params.Function
@@ -332,7 +332,7 @@ package anchoring
 // ---- the newCriterion applier, one (alternative, reference point) step (C19): the value attached to the alternative and the
 // value reported are both the bounding of mid-range + half-range x (importance-weighted sum of the mapped differences)
 //@ func addAnchoringCriteriaToAlternatives
-//@   property C19
+//@   property C19 C07 C09
 //@   loop 2 hint [attached_and_reported_value_is_the_bounded_one] newValue == criteria_bounding.boundedIn(*bounding.bounding, bounding.scaling.ValuesRange.Min + diff + diff * criterionValue)
 //@             && alt.Criteria[anchoringCriterion.Id] == newValue && anchoringCriterion.AlternativesValues[alt.Id] == newValue
 //@   loop 2 hint [half_range] diff == (bounding.scaling.ValuesRange.Max - bounding.scaling.ValuesRange.Min) / 2.0
@@ -346,7 +346,7 @@ package anchoring
 //@ ifacemethod AnchoringApplier.Identifier
 //@   ensures result == applierName(self)
 //@ func (*Anchoring).getAnchoringApplier
-//@   property C19 C20
+//@   property C19 C20 C09
 //@   ensures [first_with_that_name] exists k int :: 0 <= k && k < len(a.anchoringAppliers) && result.fun == a.anchoringAppliers[k] && applierName(result.fun) == params.Function
 //@             && forall j int :: 0 <= j && j < k ==> applierName(a.anchoringAppliers[j]) != params.Function
 //@   loop 1 invariant [none_so_far] forall j int :: 0 <= j && j < iter ==> applierName(a.anchoringAppliers[j]) != params.Function
@@ -354,14 +354,14 @@ package anchoring
 //@ ifacemethod ReferencePointsEvaluator.Identifier
 //@   ensures result == refPointsName(self)
 //@ func (*Anchoring).getReferencePointsFunction
-//@   property C19 C20
+//@   property C19 C20 C09
 //@   ensures [first_with_that_name] exists k int :: 0 <= k && k < len(a.referencePointsEvaluators) && result == a.referencePointsEvaluators[k] && refPointsName(result) == params.Function
 //@             && forall j int :: 0 <= j && j < k ==> refPointsName(a.referencePointsEvaluators[j]) != params.Function
 //@   loop 1 invariant [none_so_far] forall j int :: 0 <= j && j < iter ==> refPointsName(a.referencePointsEvaluators[j]) != params.Function
 
 // the anchoring alternatives with their coefficients, looked up among all known alternatives, in the order given
 //@ func fetchAnchoringAlternativesWithCriteria
-//@   property C19
+//@   property C19 C09
 //@   ensures [in_request_order_with_coefficients] result != nil && fresh(result) && len(*result) == len(*anchoringAlternatives) && forall k int :: 0 <= k && k < len(*anchoringAlternatives) ==>
 //@             (*result)[k].Coefficient == (*anchoringAlternatives)[k].Coefficient && (*result)[k].Alternative.Id == (*anchoringAlternatives)[k].Alternative
 //@             && exists j int :: 0 <= j && j < len(*alternatives) && (*result)[k].Alternative == (*alternatives)[j]
@@ -371,10 +371,74 @@ package anchoring
 
 // every criterion gets the configured bounding (bound to a range) next to its own scale
 //@ func matchScalingWithBounding
-//@   property C19
+//@   property C19 C09
 //@   ensures [per_criterion] fresh(result) && forall c string :: (c in result <==> c in scaling) && (c in scaling ==> result[c].scaling == scaling[c] && result[c].bounding != nil && result[c].bounding.bounding == bounding)
 //@   loop 1 invariant [ctx] fresh(result) && result != nil
 //@   loop 1 invariant [done] forall c string :: seen(c) ==> c in result && result[c].scaling == scaling[c] && result[c].bounding != nil && result[c].bounding.bounding == bounding
 //@   loop 1 invariant [only] forall c string :: c in result ==> seen(c)
 //@   loop 1 hint [bounding_on_the_criterions_own_range] bounding.AllowedValuesRangeScaling > 0.0 ==> result[c].bounding.valueRange != nil
 //@             && result[c].bounding.valueRange.Min == utils.scaledMin(s.ValuesRange, bounding.AllowedValuesRangeScaling) && result[c].bounding.valueRange.Max == utils.scaledMax(s.ValuesRange, bounding.AllowedValuesRangeScaling)
+
+// the registered object holds exactly the collaborators it was built with, each in its own role
+//@ func NewNewCriterionAnchoringApplier
+//@   property C19 C09 C07
+//@   nopanic
+//@   ensures [wired_as_given] result != nil && fresh(result) && result.generator == generator && result.referenceCriterionManager == referenceCriterionManager
+
+// the registered object holds exactly the collaborators it was built with, each in its own role
+//@ func NewAnchoring
+//@   property C19 C09
+//@   nopanic
+//@   ensures [wired_as_given] result != nil && fresh(result) && result.anchoringEvaluators == anchoringEvaluators && result.referencePointsEvaluators == referencePointsEvaluators && result.anchoringAppliers == anchoringAppliers
+
+// ---- the newCriterion applier's wiring (C19): which criterion is the reference, whose range and bounding the added values take
+//@ func (*NewCriterionAnchoringApplier).ApplyAnchoring
+//@   property C19 C07 C09
+//@   requires [state_well_formed] model.distinctCriteria(dmp.Criteria) && len(dmp.Criteria) > 0 && model.validParams(*listener, dmp.MethodParameters) && model.coversAll(*listener, dmp.MethodParameters, dmp.Criteria)
+//@   returnhint [reference_criterion_is_the_providers_choice_among_the_ranked_criteria] exists k int :: 0 <= k && k < len(criteria) && state.referenceCriterion.Id == criteria[k].Id
+//@   returnhint [added_values_take_the_reference_criterions_range_and_bounding] state.referenceCriterion.Id in boundingsWithScales && scaling == boundingsWithScales[state.referenceCriterion.Id]
+//@   returnhint [report_names_the_reference_criterion] typeis(result1, NewCriterionAnchoringApplierResult) && result1.(NewCriterionAnchoringApplierResult).ReferenceCriterion == *state.referenceCriterion
+//@   returnhint [state_handed_on] result0 != nil && result0.Criteria == state.currentCriteria && result0.MethodParameters == state.methodParams
+//@   ensures [some_state] result0 != nil
+
+// ---- wire format: the JSON names under which requests are read and responses are written (struct tags; encoding/json
+// itself is outside the verified code).  A renamed or omitempty field changes what a client sees without changing any Go value.
+//@ wire ReferencePointDifference
+//@   property C01 C19 C20
+//@   json ReferencePoint=referencePoint Coefficients=coefficients
+//@ wire ReferencePointsDifference
+//@   property C01 C19 C20
+//@   json Alternative=alternative ReferencePointsDifference=referencePointsDifference
+//@ wire ScaleWithValueRange
+//@   property C01 C19 C20
+//@   json Scale=scale ValuesRange=valuesRange
+//@ wire AnchoringParams
+//@   property C01 C19 C20
+//@   json AnchoringAlternatives=anchoringAlternatives Loss=loss Gain=gain ReferencePoints=referencePoints Applier=applier
+//@ wire AnchoringAlternative
+//@   property C01 C19 C20
+//@   json Alternative=alternative Coefficient=coefficient
+//@ wire AnchoringAlternativeWithCriteria
+//@   property C01 C19 C20
+//@   json Alternative=alternative Coefficient=coefficient
+//@ wire AnchoringResult
+//@   property C01 C19 C20
+//@   json ReferencePoints=referencePoints CriteriaScaling=criteriaScaling PerReferencePointsDifferences=perReferencePointsDifferences ApplierResult=applierResult,omitempty
+//@ wire InlineAnchoringApplierParams
+//@   property C01 C19 C20
+//@   json ApplyOnNotConsidered=applyOnNotConsidered
+//@ wire InlineAnchoringApplierResult
+//@   property C01 C19 C20
+//@   json AppliedDifferences=appliedDifferences
+//@ wire NewCriterionAnchoringApplierParams
+//@   property C01 C07 C19 C20
+//@   json RandomSeed=randomSeed
+//@ wire AddedCriterion
+//@   property C01 C07 C19 C20
+//@   json Id=id Type=type ValuesRange=valuesRange MethodParameters=methodParameters AlternativesValues=alternativesValues
+//@ wire NewCriterionAnchoringApplierResult
+//@   property C01 C07 C19 C20
+//@   json ReferenceCriterion=referenceCriterion AddedCriteria=addedCriteria
+//@ wire FunctionDefinition
+//@   property C01 C20
+//@   json Function=function Params=params
